@@ -713,6 +713,9 @@ func runCase(t *tr.W, r *rand.Rand, mode string) {
 			if h < 1 {
 				h = 1
 			}
+			if h > u.ftip+1 {
+				h = u.ftip + 1 // headers are committed consecutively
+			}
 			n := u.ftip - h + 1 - r.Intn(3) + r.Intn(2)
 			if h+n-1 > uniBlocks {
 				n = uniBlocks - h + 1
